@@ -310,6 +310,12 @@ func pinnedCases() []pinned {
 		s3.Files[0].Messages = append(s3.Files[0].Messages, child)
 		resp3.Fields = append(resp3.Fields, &schema.Field{Name: "extra", Number: 2, Kind: schema.KMessage, TypeRef: s3.Pkg + ".Extra", Card: schema.Singular, Ann: &schema.Ann{EmptyBehavior: 2}})
 		innerCase("C07", "C07/empty_behavior_null_not_in_type.json", "both", "c07", "PinService.Do", s3, "ts_empty_behavior_null_not_declared")
+		s4, _, resp4, _, _ := baseSchema("p0083")
+		s4.Files[0].Messages = append(s4.Files[0].Messages, &schema.Message{Name: "Note", Fields: []*schema.Field{fld("text", 1, schema.KString, schema.Singular)}})
+		resp4.Oneofs = []*schema.Oneof{{Name: "content", Discriminator: "kind"}}
+		resp4.Fields = append(resp4.Fields, &schema.Field{Name: "note", Number: 2, Kind: schema.KMessage, TypeRef: s4.Pkg + ".Note", Card: schema.Singular, Oneof: "content"},
+			&schema.Field{Name: "count", Number: 3, Kind: schema.KInt32, Card: schema.Singular, Oneof: "content"})
+		innerCase("C07", "C07/unflattened_discriminated_oneof_nested_in_type.json", "both", "c07", "PinService.Do", s4, "ts_oneof_disc_nested_under_oneof_name")
 	}
 	// ---- C19 ----
 	rules := func(id string, fields ...*schema.Field) *schema.Schema {
